@@ -612,21 +612,23 @@ def KeyState.revoked : KeyState → List KeyId
   | .rollOld _ o => [o.id]
   | _ => []
 
-/-- One step of the request branch on class `r` (named `n`, key identifiers `K`): what it keeps. -/
-structure ReqStep2 (y y' : Pair) (r : Rcn) (K : List KeyId) : Prop where
+/-- One step of the request branch on class `r`: what it keeps.  `Kb`: the keys whose certificate
+on file may be gone (revoked); `K`: the keys whose in-use mark may have changed. -/
+structure ReqStep2 (y y' : Pair) (r : Rcn) (Kb K : List KeyId) : Prop where
   ch : y'.ch = y.ch
   ph : y'.ph = y.ph
   inv : PairInv2 y'
   same : ParentSame y.parent.ca y'.parent.ca y.ch
   frame : ∀ r2, r2 ≠ r → get y'.child.ca.classes r2 = get y.child.ca.classes r2
-  book : ∀ q k, y'.parent.ca.issuedIn q k = y.parent.ca.issuedIn q k ∨ y'.parent.ca.bookedExact y.ch q k ∨ k ∈ K
+  book : ∀ q k, y'.parent.ca.issuedIn q k = y.parent.ca.issuedIn q k ∨ y'.parent.ca.bookedExact y.ch q k ∨ k ∈ Kb
   used : ∀ c, get y.parent.ca.children y.ch = some c → ∃ c', get y'.parent.ca.children y.ch = some c' ∧
     c'.rcnMap = c.rcnMap ∧ ∀ k, k ∉ K → get c'.usedKeys k = get c.usedKeys k
 
-theorem ReqStep2.refl {y : Pair} (h : PairInv2 y) (r : Rcn) (K : List KeyId) : ReqStep2 y y r K :=
+theorem ReqStep2.refl {y : Pair} (h : PairInv2 y) (r : Rcn) (Kb K : List KeyId) : ReqStep2 y y r Kb K :=
   ⟨rfl, rfl, h, ParentSame.refl _ _, fun _ _ => rfl, fun _ _ => Or.inl rfl, fun c hc => ⟨c, hc, rfl, fun _ _ => rfl⟩⟩
 
-theorem CertStep.toReq {y y' : Pair} {r n : Rcn} {K : List KeyId} (h : CertStep y y' r n K) : ReqStep2 y y' r K := by
+theorem CertStep.toReq {y y' : Pair} {r n : Rcn} {K : List KeyId} (h : CertStep y y' r n K) (Kb : List KeyId) :
+    ReqStep2 y y' r Kb K := by
   refine ⟨h.ch, h.ph, h.inv, h.same, h.frame, ?_, ?_⟩
   · intro q k
     rcases h.book q k with h1 | h1
@@ -662,7 +664,7 @@ a refusing parent makes the child drop the class at its first certificate reques
 theorem classRequests_gen {y : Pair} (hinv : PairInv2 y) (r : Rcn) (na now : Int) {rc : Rc}
     (hg : get y.child.ca.classes r = some rc) (hp : rc.parent = y.ph) (hwf : rc.keys.wf = true)
     (hleave : ∀ k ∈ rc.keys.revoked, InUse y.parent.ca y.ch rc.parentRcn k) :
-    ReqStep2 y (y.classRequests r na) r rc.keys.keyIds ∧
+    ReqStep2 y (y.classRequests r na) r rc.keys.revoked rc.keys.keyIds ∧
     (rc.keys.hasPending = false → y.classRequests r na = y) ∧
     (∀ k, InUse y.parent.ca y.ch rc.parentRcn k → k ∉ rc.keys.revoked →
       InUse (y.classRequests r na).parent.ca y.ch rc.parentRcn k) ∧
@@ -740,13 +742,13 @@ theorem classRequests_gen {y : Pair} (hinv : PairInv2 y) (r : Rcn) (na now : Int
   have hrevK : ∀ k ∈ rc.keys.revoked, k ∈ rc.keys.keyIds := revoked_sub_keyIds rc.keys
   refine ⟨?_, ?_, ?_, ?_, ?_⟩
   · -- what the step keeps
-    have hreq := hcs.toReq
+    have hreq := hcs.toReq rc.keys.revoked
     refine ⟨hreq.ch.trans a1, hreq.ph.trans a2, hreq.inv, ?_, ?_, ?_, ?_⟩
     · have := hreq.same; rw [a1] at this; exact a4.trans this
     · intro r2 hr2; rw [hreq.frame r2 hr2]; exact a5 r2 hr2
     · intro q k
       by_cases hk : k ∈ rc.keys.revoked
-      · exact Or.inr (Or.inr (hrevK k hk))
+      · exact Or.inr (Or.inr hk)
       · have hb := hreq.book q k
         rw [a1] at hb
         rcases hb with h1 | h1 | h1
